@@ -10,8 +10,8 @@ package main
 import (
 	"flag"
 
-	"golang.org/x/tools/go/ssa"
 	"fmt"
+	"golang.org/x/tools/go/ssa"
 	"os"
 	"runtime/debug"
 	"sort"
